@@ -95,6 +95,18 @@ fn find_all(hay: &[u8], needle: &[u8]) -> Vec<usize> {
 
 /// Moves `val` into a slot this function owns, photographs the slot's bytes, runs the value's
 /// destructor in place, photographs again. Only the object's own storage is looked at.
+thread_local! {
+    /// when set, `scan_drop` runs the destructor from a guard that is dropped while a panic unwinds
+    pub static DROP_WHILE_UNWINDING: std::cell::Cell<bool> = const { std::cell::Cell::new(false) };
+}
+
+struct DropInPlaceGuard<T>(*mut T);
+impl<T> Drop for DropInPlaceGuard<T> {
+    fn drop(&mut self) {
+        unsafe { std::ptr::drop_in_place(self.0) }
+    }
+}
+
 pub fn scan_drop<T>(val: T, needles: &[&[u8]]) -> ScanReport {
     let n = std::mem::size_of::<T>();
     let mut slot = MaybeUninit::<T>::uninit();
@@ -106,7 +118,17 @@ pub fn scan_drop<T>(val: T, needles: &[&[u8]]) -> ScanReport {
         (0..n).map(|i| unsafe { std::ptr::read_volatile(p.add(i)) }).collect()
     };
     let pre = snap(p);
-    unsafe { std::ptr::drop_in_place(slot.as_mut_ptr()) };
+    if DROP_WHILE_UNWINDING.with(|c| c.get()) {
+        // the value is dropped by a guard while a panic unwinds through this frame (std::thread::panicking() is true
+        // inside the value's destructor), the way a context owned by a panicking request handler is dropped
+        let ptr = slot.as_mut_ptr() as usize;
+        let _ = std::panic::catch_unwind(move || {
+            let _g = DropInPlaceGuard(ptr as *mut T);
+            panic!("drop-while-unwinding probe");
+        });
+    } else {
+        unsafe { std::ptr::drop_in_place(slot.as_mut_ptr()) };
+    }
     let post = snap(p);
     let mut rep = ScanReport { size: n, pre: vec![], post: vec![], zero_after: vec![] };
     for nd in needles {
@@ -331,7 +353,15 @@ fn ss_out<M: Kem>(ss: SharedSecret<M>, scan: bool) -> (Vec<u8>, Option<KemScan>)
         (0..n).map(|i| unsafe { std::ptr::read_volatile(p.add(i)) }).collect()
     };
     let pre = snap(p);
-    unsafe { std::ptr::drop_in_place(slot.as_mut_ptr()) };
+    if DROP_WHILE_UNWINDING.with(|c| c.get()) {
+        let ptr = slot.as_mut_ptr() as usize;
+        let _ = std::panic::catch_unwind(move || {
+            let _g = DropInPlaceGuard(ptr as *mut SharedSecret<M>);
+            panic!("drop-while-unwinding probe");
+        });
+    } else {
+        unsafe { std::ptr::drop_in_place(slot.as_mut_ptr()) };
+    }
     let post = snap(p);
     (bytes, Some(KemScan { pre, post }))
 }
@@ -857,6 +887,8 @@ macro_rules! suite_row {
             (1, 0xFFFF) => Some(Box::new(Sx::<ExportOnlyAead, HkdfSha256, $kemty>(PhantomData)) as Box<dyn SuiteOps>),
             (2, 0xFFFF) => Some(Box::new(Sx::<ExportOnlyAead, HkdfSha384, $kemty>(PhantomData)) as Box<dyn SuiteOps>),
             (3, 0xFFFF) => Some(Box::new(Sx::<ExportOnlyAead, HkdfSha512, $kemty>(PhantomData)) as Box<dyn SuiteOps>),
+            (1, 0x7777) => Some(Box::new(Sx::<crate::probe::ProbeAead, HkdfSha256, $kemty>(PhantomData)) as Box<dyn SuiteOps>),
+            (3, 0x7777) => Some(Box::new(Sx::<crate::probe::ProbeAead, HkdfSha512, $kemty>(PhantomData)) as Box<dyn SuiteOps>),
             _ => None,
         }
     };
